@@ -18,6 +18,8 @@ import Ioc.FactorySkel
 import Ioc.Generated.Facts
 import IocProofs.Lemmas.M2LogEarly
 import IocProofs.Lemmas.M2Examples
+import IocProofs.Lemmas.SemFactory2
+import IocProofs.Lemmas.SemPopulate
 namespace Ioc.C05
 open Ioc Ioc.M2 Ioc.M2.Lc
 
@@ -232,5 +234,35 @@ example : ¬ Reaches cyc 3 2 ∧ Reaches cyc 0 2 := by
 /-- regenerated fact: in doCreateComponent populateComponent precedes InitializeComponent, and populateComponent runs
     ResolveAfterInstantiation before any dependency is fetched and Inject after all candidates of a point were fetched -/
 theorem C05_create_skeleton : Ioc.Facts.factorySkel = Ioc.expectedFactorySkel := rfl
+
+/-! ### the tie to the code: createComponent (regenerated)
+
+`Ioc.Progs.fac_createComponent` is the syntax tree of `defaultFactory.createComponent` (factory.go:164-188): an unknown name
+is an error before anything runs; ResolveBeforeInstantiation runs first; only when it returns nothing does
+doCreateComponent (early exposure, populate, initialize — C03_code_doCreateComponent) run, and its result is returned. -/
+theorem C05_code_createComponent (d : Sem.CCC) :
+    Go.run (Sem.cccPrims d) Progs.fac_createComponent [.int d.n] [] =
+      some (Sem.encMeta d.n (Sem.createModel d).1, (Sem.createModel d).2) :=
+  Sem.createComponent_sem d
+
+/-! ### the tie to the code: populateComponent (regenerated)
+
+`Ioc.Progs.fac_populateComponent` is the syntax tree of `defaultFactory.populateComponent` (factory.go:252-283).  For every
+list of properties with their candidate lists and every behaviour of ResolveAfterInstantiation / doGetComponent / Inject it
+makes exactly the calls of `Sem.populateModel`, in that order: the instantiation-aware processors first; then property by
+property, in the order of GetComponentProperties, every candidate in the order of `Injects` through doGetComponent — the
+first error ends everything — and only after ALL candidates of the property were obtained, `Inject` with exactly those
+components in that order (a property without candidates is not injected at all).  This is the order in which the machine's
+frame walks its points (`p`, `d`, `acc`), hence "every injection point is set before initialization" (C05_populated_before_init):
+doCreateComponent calls InitializeComponent only after populateComponent returned nil (C03_code_doCreateComponent). -/
+theorem C05_code_populateComponent (d : Sem.PC) :
+    ∃ out, Go.run (Sem.pcPrims d) Progs.fac_populateComponent [.int d.n, .ref d.n 0] [] = some (out, (Sem.populateModel d).1) ∧
+      out = (if (Sem.populateModel d).2 then .nil else Sem.errP) :=
+  Sem.populateComponent_sem d
+
+/-- non-vacuity: two properties with candidates [5,6] and [7]; doGetComponent(7) fails: both candidates of the first point
+    are obtained and injected, then 7 is tried and the error returned — the second point is never injected -/
+example : Sem.populateModel { n := 1, resolveOk := true, props := [[5, 6], [7]], getOk := (· != 7), injectOk := fun _ => true } =
+    ([.resolve, .get 5, .get 6, .inject 0 [5, 6], .get 7], false) := by decide
 
 end Ioc.C05
